@@ -256,6 +256,38 @@ int main(int argc,char **argv)
 			tr.line(vt::J().s("e","Emptied").i("keys",k).i("trigs",t).str());
 		}
 	}
+	else if(mode=="stream") {
+		// a long stream of DISTINCT keys through a small cache without any clear(): memory of evicted entries (value, key,
+		// index nodes, trigger slots) must be released, so the cache always holds exactly <limit> live entries
+		// usage: cache_drv stream process|thread <limit> <names(ignored)> <count> <value-size>
+		int count=atoi(argv[5]); int vsize=atoi(argv[6]);
+		process_backend = std::string(argv[2])=="process"; reset();
+		long minkeys=1<<30, badtrigs=0; std::vector<int> recent_trigs;   // stats() after EVERY store: a leak shows as short dips
+		for(int i=1;i<=count;i++) {
+			char key[64]; snprintf(key,sizeof(key),"a-rather-long-key-name-%08d",i);
+			std::set<std::string> trig; if(i%3==0) { char tn[64]; snprintf(tn,sizeof(tn),"a-rather-long-trigger-%08d",i); trig.insert(tn); }
+			cache->store(key,std::string(vsize+(i%5),char('a'+i%26)),trig,vt::clock_base+1000);
+			{
+				unsigned k=0,t=0; cache->stats(k,t);
+				if(i>=limit) {
+					if((long)k<minkeys) minkeys=k;
+					int extra=0; for(int j=i;j>i-limit && j>0;j--) if(j%3==0) extra++;
+					if((int)t!=limit+extra) badtrigs++;
+				}
+			}
+			if(i%500==0 || i==count) {
+				unsigned k=0,t=0; cache->stats(k,t);
+				int hits=0, extra=0;
+				for(int j=(i-limit+1>1?i-limit+1:1);j<=i;j++) {    // oldest first: the recency order stays the store order
+					char kk[64]; snprintf(kk,sizeof(kk),"a-rather-long-key-name-%08d",j); std::string v;
+					if(cache->fetch(kk,&v,0,0,0)) hits++;
+					if(j%3==0) extra++;
+				}
+				tr.line(vt::J().s("e","Stream").i("i",i).i("limit",limit).i("keys",k).i("trigs",t).i("hits",hits).i("want_trigs",limit+extra).i("minkeys",minkeys==(1<<30)?limit:minkeys).i("badtrigs",badtrigs).str());
+				minkeys=1<<30; badtrigs=0;
+			}
+		}
+	}
 	else if(mode=="script") {
 		reset();
 		std::string w;
